@@ -29,6 +29,8 @@ pub enum Op {
     NewConfig([u8; 4]),
     NewContext(u8),
     Key(u8, u8, u8, u8),
+    /// (context, key, modifier, n): the same key pressed (n % 96) + 2 times
+    KeyBurst(u8, u8, u8, u8),
     Backspace(u8, u8),
     Commit(u8, u8),
     Finish(u8),
@@ -52,7 +54,8 @@ pub fn encode(header: [u8; 4], ops: &[(u8, Op)]) -> Vec<u8> {
                 b.extend_from_slice(c);
             }
             Op::NewContext(a) => b.extend_from_slice(&[h | 1, *a]),
-            Op::Key(x, k, m, s) => b.extend_from_slice(&[h | (2 + (hi % 3)), *x, *k, *m, *s]),
+            Op::Key(x, k, m, s) => b.extend_from_slice(&[h | (2 + (hi % 2)), *x, *k, *m, *s]),
+            Op::KeyBurst(x, k, m, n) => b.extend_from_slice(&[h | 4, *x, *k, *m, *n]),
             Op::Backspace(x, c) => b.extend_from_slice(&[h | 5, *x, *c]),
             Op::Commit(x, f) => b.extend_from_slice(&[h | 6, *x, *f]),
             Op::Finish(x) => b.extend_from_slice(&[h | 7, *x]),
@@ -74,7 +77,7 @@ pub fn simulate(ops: &[(u8, Op)]) -> (usize, usize, usize) {
     let (mut created, mut rereads, mut live) = (0usize, 0usize, 0usize);
     for (_, op) in ops.iter().take(64) {
         match op {
-            Op::Key(..) | Op::Backspace(..) => {
+            Op::Key(..) | Op::KeyBurst(..) | Op::Backspace(..) => {
                 created += 1;
                 live += 1;
             }
@@ -105,7 +108,8 @@ pub fn sequence(with_data: bool) -> impl Strategy<Value = ([u8; 4], Vec<(u8, Op)
     ];
     let modifier = prop_oneof![6 => Just(0u8), 2 => Just(2u8), 1 => any::<u8>()];
     let op = prop_oneof![
-        45 => (any::<u8>(), key, modifier, prop_oneof![3 => Just(0u8), 1 => any::<u8>()]).prop_map(|(x, k, m, s)| Op::Key(x, k, m, s)),
+        45 => (any::<u8>(), key.clone(), modifier, prop_oneof![3 => Just(0u8), 1 => any::<u8>()]).prop_map(|(x, k, m, s)| Op::Key(x, k, m, s)),
+        3 => (any::<u8>(), key.clone(), prop_oneof![4 => Just(0u8), 2 => Just(2u8)], any::<u8>()).prop_map(|(x, k, m, n)| Op::KeyBurst(x, k, m, n)),
         8 => (any::<u8>(), any::<u8>()).prop_map(|(x, c)| Op::Backspace(x, c)),
         8 => (any::<u8>(), any::<u8>()).prop_map(|(x, f)| Op::Commit(x, f)),
         4 => any::<u8>().prop_map(Op::Finish),
@@ -188,6 +192,9 @@ pub fn run(run: &Run) {
             if live > 0 {
                 st.label("suggestions-outlive-their-context");
             }
+            if ops.iter().take(64).any(|(_, o)| matches!(o, Op::KeyBurst(_, _, _, n) if (*n as usize % 96) + 2 >= 90)) {
+                st.label("composition-of-90-or-more-keys");
+            }
             if rereads > 0 || live > 0 {
                 st.nontrivial(hash_of(&bytes), || json!({"config_bytes": h, "ops": ops.iter().take(24).map(|(_, o)| format!("{o:?}")).collect::<Vec<_>>(), "suggestions_created": created}));
             }
@@ -207,6 +214,14 @@ pub fn run(run: &Run) {
     run.parts.lock().unwrap().push(json!({"part": "generated sequences executed once under ASan+LSan", "files": out.executed, "ok": out.ok}));
     let report = |out: &fuzz::Outcome, what: &str| {
         let new: Vec<PathBuf> = out.artifacts.iter().filter(|a| !before.contains(*a) && !a.to_string_lossy().ends_with(".min")).cloned().collect();
+        {
+            let mut st = run.stats.lock().unwrap();
+            st.count("fuzz-slow-unit-notes-ignored", out.slow_units);
+            st.count("fuzz-timeouts-under-load-not-reproduced", out.timeouts_not_reproduced);
+        }
+        if out.oom > 0 {
+            run.health.lock().unwrap().push(format!("{what}: {} out-of-memory report(s) - inconclusive", out.oom));
+        }
         if !out.ok || !new.is_empty() {
             let art = new.first().map(|a| minimise(a));
             let mut f = Failure::new("sanitizer-or-oracle-report", format!("{what}: {}", out.report.lines().take(8).collect::<Vec<_>>().join(" | ")), json!({}));
@@ -225,6 +240,7 @@ pub fn run(run: &Run) {
     run.require_label("re-read-after-later-call", 100);
     run.require_label("suggestions-outlive-their-context", 100);
     run.require_label("sequence-with-bundled-dictionary", 10);
+    run.require_label("composition-of-90-or-more-keys", 30);
 }
 
 /// Replay of a saved fuzzer input (raw bytes).
